@@ -94,8 +94,7 @@ def build_c_object(spec):
     out = os.path.join(BUILD, 'obj', re.sub(r'[^A-Za-z0-9_.=-]', '_', spec) + '.o')
     dep = out + '.d'
     with Lock('obj_' + os.path.basename(out)):
-        # (one -MF file records the dependencies of a single translation unit only: several sources => always rebuild)
-        if len(srcs) == 1 and not _deps_changed(out, dep):
+        if not _deps_changed(out, dep):
             return True, out, ''
         r = sh(['gcc'] + CFLAGS_C + flags + ['-MMD', '-MF', dep, '-I' + REPO, '-c', os.path.join(REPO, rel), '-o', out])
         if r.returncode != 0:
@@ -121,7 +120,8 @@ def build_harness(name, sources, extra=None, link_lib=True, cflags=None):
             objs.append(o)
     extra = [x for x in (extra or []) if not x.startswith('c:')] + objs
     with Lock('h_' + name):
-        if not _deps_changed(out, dep) and all(os.path.getmtime(o) <= os.path.getmtime(out) for o in objs):
+        # (one -MF file records the dependencies of a single translation unit only: several sources => always rebuild)
+        if len(srcs) == 1 and not _deps_changed(out, dep) and all(os.path.getmtime(o) <= os.path.getmtime(out) for o in objs):
             return True, out, ''
         cmd = ['g++'] + (cflags or CXXFLAGS) + ['-MMD', '-MF', dep, '-I' + REPO, '-I' + os.path.join(VERIF, 'harness')] + srcs
         if link_lib:
